@@ -404,6 +404,17 @@ impl<'a> PGen<'a> {
                 self.load_const(C, n);
                 emit!(self, r1(O::ALOC, C));
                 if n >= 8 {
+                    // observe the fresh allocation (must read as zero even on a reused instance):
+                    // log all of it, or load its last word, before writing into it
+                    match self.g.below(3) {
+                        0 => emit!(self, r4(O::LOGD, ZERO, ZERO, HP, C)),
+                        1 => {
+                            let w = ((n / 8) - 1).min(4095) as u32;
+                            emit!(self, ri12(O::LW, d, HP, w));
+                            emit!(self, r4(O::LOG, d, ZERO, ZERO, ZERO));
+                        }
+                        _ => {}
+                    }
                     emit!(self, ri12(O::SW, HP, v, 0));
                 }
             }
@@ -876,7 +887,7 @@ impl<'a> PGen<'a> {
         let d = self.nreg();
         match self.g.below(8) {
             0 => {
-                let sel = if wild { self.g.range(0, 10) } else if self.is_script { self.g.range(4, 7) } else { *self.g.pick(&[1u64, 2, 4, 5, 6, 7]) };
+                let sel = if wild { self.g.range(0, 10) } else if self.is_script { self.g.range(4, 8) } else { *self.g.pick(&[1u64, 2, 4, 5, 6, 7, 8]) };
                 emit!(self, ri18(O::GM, d, sel as u32));
             }
             1 if wild => {
